@@ -1163,7 +1163,7 @@ func (cfg *LifeCfg) GenClaimUnderDebt(t *rapid.T, s *Sim) *Action {
 	// classify: is what the claim will find less than a coin, within the debt, or more than the debt
 	sp := s.bech(p)
 	found := claimable(s.Last, sp)
-	debt := sdk.NewDecFromInt(s.Last.Debts[sp].Debt.Amount)
+	debt := sdk.NewDecFromInt(intOr0(s.Last.Debts[sp].Debt.Amount)) // the debt may have been settled during the advance
 	switch {
 	case found.LT(sdk.OneDec()):
 		s.Label("claim-under-debt:block-reward-below-one-coin")
